@@ -98,7 +98,13 @@ def generate(tier, rng):
         for seq in itertools.product(alpha, repeat=k):
             yield {"ops": [list(o) for o in seq]}
     for i in range(1200 if tier == "quick" else 6000):
-        yield {"ops": rand_history(rng, rng.randint(5, 40))}
+        c = {"ops": rand_history(rng, rng.randint(5, 40))}
+        if i % 4 == 0:
+            c["oldtimes"] = True
+        yield c
+    for seq in itertools.product([["init", 0], ["init", 1], ["remove", 0], ["ucache"], ["session"]], repeat=4):
+        if ["ucache"] in [list(o) for o in seq]:
+            yield {"ops": [list(o) for o in seq], "oldtimes": True}
 
 
 def search(rng, deadline):
@@ -108,6 +114,11 @@ def search(rng, deadline):
 
 def shrink(case):
     if "bulk" in case:
+        return
+    if case.get("oldtimes"):
+        ops = case["ops"]
+        for i in range(len(ops)):
+            yield dict(case, ops=ops[:i] + ops[i + 1:])
         return
     if "chunks" in case:
         for i in range(len(case["chunks"])):
@@ -297,6 +308,15 @@ def run_case(case, ctx):
                         os.remove(cache_fn)
             except Exception as e:  # noqa: BLE001
                 res = exc_name(e)
+            if case.get("oldtimes"):
+                # time stamps carry no information (a restore that preserves them, clock skew, a coarse clock): the
+                # workspace and its entries always look older than the cache file
+                ws_ = os.path.join(path, "workspace")
+                if os.path.isdir(ws_):
+                    for n_ in os.listdir(ws_):
+                        os.utime(os.path.join(ws_, n_), (1e9, 1e9))
+                    os.utime(ws_, (1e9, 1e9))
+                tags.add("old-time-stamps")
             tags.add("res:" + (res if not res.isdigit() else "count"))
             truth = raw_workspace(path)
             any_job = any_job or bool(truth)
@@ -377,4 +397,4 @@ def run_case(case, ctx):
         ctx.cleanup(path)
     nontrivial = any_job and any(o[0] == "ucache" for o in case["ops"])
     return {"model": ["run " + " | ".join(mops)] if mops else [], "impl": [" ".join(itoks)] if itoks else [],
-            "oracle": oracle[:5], "tags": sorted(tags), "key": json.dumps(case["ops"]) if nontrivial else None}
+            "oracle": oracle[:5], "tags": sorted(tags), "key": json.dumps([case["ops"], bool(case.get("oldtimes"))]) if nontrivial else None}
